@@ -262,6 +262,9 @@ func buildPlan(id string, pinned map[string]string, tier string) *Plan {
 		for _, pk := range sortedKeysSS(gtExpTypes("/repo")) {
 			p.Units = append(p.Units, Unit{Pkg: pk, Tags: "", Groups: []string{"gtexp"}})
 		}
+		for _, pk := range sortedKeysSS(batchInvTypes("/repo")) {
+			p.Units = append(p.Units, Unit{Pkg: pk, Tags: "", Groups: []string{"batchinv"}})
+		}
 		p.Trusted = []string{
 			"Exp of the target-group types (module layer): Mul / Square / Inverse / SetOne / Set are interpreted as the operations of an abelian group written additively (their coordinate formulas are the ring-layer contracts of the same package); for a negative exponent the operand is assumed invertible; the temporary big.Int taken from the sync.Pool has the asserted dynamic type (option typed-pool)",
 			"ring layer: a method of an abstract element type is interpreted by the ring operation that its own contract states one layer below (fp.Element: C01 contracts; E2: contracts at layer 'ring fp.Element'; E6: at layer 'ring E2')",
@@ -269,7 +272,7 @@ func buildPlan(id string, pinned map[string]string, tier string) *Plan {
 			"documented defining polynomials of the towers (BETA, XI in gcv/gen_tower.go)"}
 		p.Assumptions = []string{"Inverse contracts state x*z == N(x)*inv(N(x)) embedded in the base ring (N = norm down one level); that N(x)*inv(N(x)) == 1 for x != 0 needs 'the base ring is a field and the norm of a non-zero element is non-zero', which is not proved here",
 			"inv() of the innermost layer is fp.Element.Inverse, interpreted (not proved) at the ring layer: its own addition chain is outside the contracts"}
-		p.NotCovered = []string{"BatchInvert / Sqrt / Legendre of the tower types and (Div is under contract at every level; Exp is, for every extension type that has one - E12 / E24 / E6 with 2-bit windows, E2 / E4 of the towers and of the small-field extensions bit by bit -: z = x^k for every integer k, every window / bit its own obligation)",
+		p.NotCovered = []string{"BatchInvert of the extension types: only length, freshness, input untouched and the zero convention (every zero entry yields zero) are under contract, not that the other entries are the inverses; Sqrt / Legendre of the tower types and (Div is under contract at every level; Exp is, for every extension type that has one - E12 / E24 / E6 with 2-bit windows, E2 / E4 of the towers and of the small-field extensions bit by bit -: z = x^k for every integer k, every window / bit its own obligation)",
 			"Frobenius maps, cyclotomic and compressed squarings, torus compression, Expt/ExpGLV chains: not under contract",
 			"bw6-633 / bw6-761 (E3 = Fp[u]/(u^3 - nr), E6 = E3[v]/(v^2 - u)): Add/Sub/Double/Neg/Mul/Square/Inverse/MulByNonResidue/MulByElement/Conjugate, the sparse products MulBy01/1/12/014/01245, Mul01By01, Mul014By014 and the value of nr (fp.MulByNonResidue) are under contract; their cyclotomic/compressed squarings, Frobenius, Expt chains, torus compression and the direct sextic representation (E6D) are not",
 			"small-field extensions (koalabear / babybear E2, E4; goldilocks E2): Add/Sub/Double/Neg/Conjugate/Mul/Square/Inverse/MulByNonResidue/MulByElement/MulByE2/norm are under contract with the documented quadratic non-residues 3 / 11 / 7; Div, Sqrt, Legendre, Exp, Halve, BatchInvert, MulAccE4 (AVX-512) are not",
